@@ -434,6 +434,9 @@ func vfDo(m *vfAPIMember, rq vfReq, clock *int64, client int) vfResp {
 
 var vfNames = []string{"vfobj-a", "vfobj-b", "vfobj-c"}
 
+// every name is a proper prefix of the following ones (or shares one with them)
+var vfPrefixNames = []string{"vfo", "vfo1", "vfo10", "vfo-x"}
+
 type vfRound struct {
 	Seed    []vfReq   // sequential creates before the round
 	Clients [][]vfReq // concurrent scripts
@@ -454,17 +457,27 @@ func vfGenRound(rt *rapid.T) *vfRound {
 	r := &vfRound{}
 	n := 0
 	note := func() string { n++; return fmt.Sprintf("n%d", n) }
-	for _, name := range vfNames {
+	// about half of the rounds use names in proper-prefix relation (a request on one name must not
+	// touch an object whose name merely starts with it)
+	pool := vfNames
+	prefixRound := rapid.Bool().Draw(rt, "prefixNames")
+	if prefixRound {
+		pool = vfPrefixNames
+	}
+	for _, name := range pool {
 		if rapid.Bool().Draw(rt, "seeded") {
 			r.Seed = append(r.Seed, vfReq{Member: 0, Op: "create", Name: name, Kind: rapid.SampledFrom(vfKinds).Draw(rt, "seedKind"), Note: note()})
 		}
 	}
 	// most rounds concentrate on few names so that same-name mutations overlap
-	names := vfNames[:rapid.SampledFrom([]int{1, 2, 3, 1, 2}).Draw(rt, "nNames")]
+	names := pool[:rapid.SampledFrom([]int{1, 2, 3, 1, 2}).Draw(rt, "nNames")]
+	if prefixRound {
+		names = pool[:rapid.SampledFrom([]int{2, 3, 4, 2}).Draw(rt, "nPrefixNames")]
+	}
 	// per round every name has a usual kind (the seeded one if seeded), so that most updates meet
 	// the stored kind and succeed; the other kind is still drawn now and then
 	usual := map[string]string{}
-	for _, name := range vfNames {
+	for _, name := range pool {
 		usual[name] = rapid.SampledFrom(vfKinds).Draw(rt, "usualKind")
 	}
 	for _, sd := range r.Seed {
@@ -696,6 +709,12 @@ func TestVerifC18API(t *testing.T) {
 		}
 		if overlapSameName {
 			vf.Class("same-name-mutations-overlapped-in-time")
+		}
+		for _, r := range succ {
+			if r.req.Op == "delete" && r.req.Name != "vfo-x" && strings.HasPrefix(r.req.Name, "vfo") && !strings.HasPrefix(r.req.Name, "vfobj") {
+				vf.Class("delete-of-a-name-that-prefixes-other-names")
+				break
+			}
 		}
 		twoMembers := false
 		for _, r := range succ {
